@@ -12,7 +12,23 @@ fn run_all(scns: Vec<Scenario>, mk: &MkMon, tier: Tier) -> Vec<ExploreResult> {
     // debugging aid (never set by the registered commands): run only the scenarios whose name
     // contains $VERIF_ONLY
     let only = std::env::var("VERIF_ONLY").ok();
-    scns.into_iter().filter(|s| only.as_ref().map_or(true, |o| s.name.contains(o.as_str()))).map(|s| explore(s, mk, &opts)).collect()
+    // once a scenario has produced a violation the verdict of the check is settled: the remaining
+    // scenarios still run (other signatures), but with a short wall cap, so that a tree on which
+    // every state space explodes does not keep the check busy for an hour
+    let mut found = false;
+    let mut out = vec![];
+    for s in scns.into_iter().filter(|s| only.as_ref().map_or(true, |o| s.name.contains(o.as_str()))) {
+        let mut o = Opts { max_states: opts.max_states, audit_cap: opts.audit_cap, wall_cap_s: opts.wall_cap_s };
+        if found {
+            o.wall_cap_s = o.wall_cap_s.min(tier.pick(15.0, 120.0));
+        }
+        let r = explore(s, mk, &o);
+        if !r.violations.is_empty() || !r.generic.is_empty() {
+            found = true;
+        }
+        out.push(r);
+    }
+    out
 }
 
 pub fn replay_e1(args: &Args, mk: &MkMon) -> Report {
@@ -134,12 +150,19 @@ pub fn c02(args: &Args) -> Report {
         return replay_e1(args, mk);
     }
     let res = run_all(c02_scenarios(args.tier), mk, args.tier);
-    with_conformance(fold(res, &GEN, 0, json!({})), &[(true, false)])
+    with_conformance2(fold(res, &GEN, 0, json!({})), &[(true, false)], &["transfer-not-completed"])
 }
 
 /// a small batch of real-daemon schedules validated against the E1 loop model, run with every E1
 /// check so that its evidence states how many model traces were validated against the implementation
-fn with_conformance(mut rep: Report, modes: &[(bool, bool)]) -> Report {
+fn with_conformance(rep: Report, modes: &[(bool, bool)]) -> Report {
+    with_conformance2(rep, modes, &[])
+}
+
+/// `direct`: also report what the twin-independent oracles of the daemon runs found, by clause
+/// (C02: a single acknowledged transfer with at most one loss and no delay must complete on the
+/// real daemons; C07: the sizes in the Metadata and EOF PDUs leaving a daemon are the source's)
+fn with_conformance2(mut rep: Report, modes: &[(bool, bool)], direct: &[&str]) -> Report {
     let mut agreed = 0;
     let mut schedules = 0;
     let mut steps = 0;
@@ -151,6 +174,7 @@ fn with_conformance(mut rep: Report, modes: &[(bool, bool)]) -> Report {
         for d in c.divergences {
             rep.machinery_errors.push(format!("MODEL-DIVERGENCE: the real daemon loop and the E1 loop model disagree: {}", d));
         }
+        rep.violations.extend(c.violations.into_iter().filter(|v| direct.contains(&v.clause.as_str())));
     }
     if let Some(o) = rep.coverage.as_object_mut() {
         o.insert("traces_validated_against_impl".into(), json!(agreed));
@@ -433,6 +457,21 @@ pub fn c04(args: &Args) -> Report {
     s.requests = vec![(3, "log1".into(), "log2".into())];
     s.pre_files = vec![("log1".into(), "A".into()), ("log2".into(), "B".into())];
     scns.push(s);
+    // user requests at the receiver at any moment — a status report whose requester has gone
+    // away, suspend and resume — while the closing handshake is being lost and repeated
+    for (nm, ops) in [("report@R", vec![(Side::R, UserOp::Report, 1)]), ("suspend/resume@R", vec![(Side::R, UserOp::Suspend, 1), (Side::R, UserOp::Resume, 1)])] {
+        for null in [false, true] {
+            let mut s = Scenario::base(&format!("c04 ack {} file size=17 {} F=2 d", if null { "null" } else { "modular" }, nm));
+            s.file_size = Some(17);
+            s.null_checksum = null;
+            s.user = ops.clone();
+            s.faults = 2;
+            s.k_drop = true;
+            s.requests = vec![(3, "log1".into(), "log2".into())];
+            s.pre_files = vec![("log1".into(), "A".into()), ("log2".into(), "B".into())];
+            scns.push(s);
+        }
+    }
     let res = run_all(scns, mk, args.tier);
     with_conformance(fold(res, &["panic", "codec"], 0, json!({})), &[(true, false), (false, true)])
 }
@@ -478,6 +517,20 @@ pub fn c18(args: &Args) -> Report {
         s.k_drop = true;
         scns.push(s);
     }
+    // no closure: a cancel (user at either entity, or the inactivity limit after a blackout)
+    // with the Metadata PDU or anything else lost — still nothing may travel towards the sender
+    for by in [Side::R, Side::S] {
+        let mut s = Scenario::base(&format!("c18 unack size=33 cancel@{:?} + blackout + F=1 d", by));
+        s.ack = false;
+        s.closure = false;
+        s.file_size = Some(33);
+        s.max_count = 1;
+        s.user = vec![(by, UserOp::Cancel, 1)];
+        s.faults = 1;
+        s.k_drop = true;
+        s.blackout = vec![LinkId::SR];
+        scns.push(s);
+    }
     let res = run_all(scns, mk, args.tier);
     with_conformance(fold(res, &GEN, 0, json!({})), &[(false, false), (false, true)])
 }
@@ -516,6 +569,14 @@ pub fn c20(args: &Args) -> Report {
             scns.push(b);
         }
     }
+    // a cancel at the sender in the middle of its first pass, then reports from the cancelled
+    // phase: Resumed after a suspension, Abandon at the limit of the unanswered EOF(cancel)
+    let mut cs = Scenario::base("c20 ack size=47 cancel@S + suspend/resume@S + blackout");
+    cs.file_size = Some(47);
+    cs.max_count = 1;
+    cs.user = vec![(Side::S, UserOp::Cancel, 1), (Side::S, UserOp::Suspend, 1), (Side::S, UserOp::Resume, 1)];
+    cs.blackout = vec![LinkId::RS];
+    scns.push(cs);
     let mut u = Scenario::base("c20 unack+closure size=33 F=1 d blackout");
     u.ack = false;
     u.closure = true;
@@ -753,7 +814,7 @@ pub fn c07(args: &Args) -> Report {
     c.k_drop = true;
     scns.push(c);
     let res = run_all(scns, mk, args.tier);
-    with_conformance(fold(res, &["panic", "codec"], 0, json!({})), &[(true, false), (false, false)])
+    with_conformance2(fold(res, &["panic", "codec"], 0, json!({})), &[(true, false), (false, false)], &["metadata-size-wrong", "eof-size-wrong"])
 }
 
 pub fn c08(args: &Args) -> Report {
@@ -786,6 +847,17 @@ pub fn c08(args: &Args) -> Report {
         s.k_overtake = true;
         s.k_delay = true;
         s.user = vec![(Side::S, UserOp::PromptNak, 1)];
+        scns.push(s);
+    }
+    // losses combined with a pause in the data flow longer than a timer (but below its limit)
+    // before the EOF: the deferred procedure still must not ask for anything before EOF
+    for (imm, nm) in [(false, "def0"), (true, "imm0")] {
+        let mut s = Scenario::base(&format!("c08 size=17 nak={} F=2 dt", nm));
+        s.file_size = Some(17);
+        s.nak_immediate = imm;
+        s.faults = 2;
+        s.k_drop = true;
+        s.k_delay = true;
         scns.push(s);
     }
     // user suspend / resume at the receiver at every state (deferred: no NAK before EOF all the same)
@@ -913,6 +985,29 @@ pub fn c17_e1(tier: Tier) -> Vec<ExploreResult> {
         g.faults = 3;
         g.k_drop = true;
         scns.push(g);
+    }
+    // a NAK answered only in part, round after round: each round brings new data, so the NAK
+    // count starts again each time and the limit (1 or 2) is never reached
+    for mc in [1u32, 2] {
+        let mut g = Scenario::base(&format!("c17 ack max_count={} size=33 F={} d (partial answers)", mc, 2 + mc));
+        g.max_count = mc;
+        g.file_size = Some(33);
+        g.faults = (2 + mc) as u8;
+        g.k_drop = true;
+        scns.push(g);
+    }
+    // acknowledged mode with the closure flag set in the entity configuration (it means nothing
+    // there): the sender's inactivity limit is still an inactivity limit, with its own handler
+    for (a, an) in [(3u8, "abandon"), (1u8, "suspend")] {
+        let mut s = Scenario::base(&format!("c17 ack+closure max_count=2 handlers={{inactivity:{}}} blackout + F=1 t", an));
+        s.closure = true;
+        s.max_count = 2;
+        s.file_size = Some(17);
+        s.blackout = vec![LinkId::SR, LinkId::RS];
+        s.faults = 1;
+        s.k_delay = true;
+        s.handlers = vec![(8, a)];
+        scns.push(s);
     }
     run_all(scns, mk, tier)
 }
